@@ -326,7 +326,9 @@ def place_provenance(body, pl, depth=0, seen=None, through_calls=()):
     fields = [p for p in (pl.get("p") or [])]
     fkey = place_key(pl)
     if (fkey) in seen or depth > 40:
-        return [Src("unknown", why="cycle")]
+        # a definition that refers back to itself (x = x - n) adds no new source: the other
+        # definitions of the cycle supply the leaves
+        return [] if depth <= 40 and fkey in seen else [Src("unknown", why="depth")]
     seen = seen | {fkey}
     if 1 <= l <= body.argc:
         return [Src("param", l=l, name=body.local_name(l), fields=place_fields(pl), proj=fields)]
